@@ -1,2 +1,4 @@
 pub mod c16;
+pub mod c19;
 pub mod c20;
+pub mod hemc;
